@@ -312,6 +312,12 @@ func (p *Program) verifyFunc(key string, safetyOnly bool) *FuncResult {
 				continue
 			}
 			for _, pn := range fc.NoRetain {
+				if fc == icon {
+					// the interface contract names the interface method's parameter
+					if prm, ok := ifaceNames[pn]; ok {
+						pn = prm.Name()
+					}
+				}
 				v := rp.vals[0]
 				deep := joinLabel(labelOf(v), ownOf(v))
 				goal := True
@@ -320,7 +326,7 @@ func (p *Program) verifyFunc(key string, safetyOnly bool) *FuncResult {
 						goal = False
 					}
 				}
-				if goal == False {
+				if goal == False && fc != icon {
 					e.retainsSeen[pn] = true
 					// ownership transfer instead: every call site must hand over storage it owns (checked there)
 					continue
